@@ -41,7 +41,7 @@ from werkzeug.wrappers import Request
 
 RULE = "C07"
 NPROC = 16
-GUARD_SECONDS = 20.0
+GUARD_SECONDS = 10.0
 
 # ----------------------------------------------------------------------------------------------
 # token alphabet (priority order: the quick tier takes a prefix)
@@ -53,15 +53,17 @@ TOKENS = [
     # fragments that reach deeper branches
     "a", "0", "1", "q", "\xe9", "\xff", "\xc3\xa9", "Basic ", "dXNlcjpwYXNz", "bytes", "W/",
     "Mon, 01 Jan 2000 00:00:00 ", "+9999999999999", "99999999999999999999", "*=", "UTF-8''", "%E4%F6", "text/html",
-    "charset", "max-age", "-1", "Digest ", "localhost", "\xb2",
-    # ---- quick tier stops here (39 tokens) ----
+    "max-age", "localhost", "\xb2", "a;q=",
+    # ---- quick tier stops here (37 tokens) ----
+    ";q=",
+    "charset", "-1", "Digest ",
     "(", "<", ">", "&", "+", "?", "@", "#", "|", "{", "~", "_",
     "*0*=", "*1=", "%zz", "%2", "0.5", "1.000", "GMT", "Bearer ", "dQ==", "====", "\xa0", "\xad", "\xdf", "\xc3", "\xe2\xa2",
-    '\\"', '""', ";q=", "en-US", "*/*", "chunked", "127.0.0.1", "::1", "80", "xn--", "multipart/form-data", "boundary",
+    '\\"', '""', "x''", "/w==", "7", "\\377", "en-US", "*/*", "chunked", "127.0.0.1", "::1", "80", "xn--", "multipart/form-data", "boundary",
     "filename", "utf-8", "iso-8859-1''", "realm", "nonce", "none", "no-cache", "x", "Z", "T", "00:00", "Jan", "1e9", "0x10",
     "\xbc", "\xb9",
 ]
-N_QUICK = 39
+N_QUICK = 37
 
 
 def _check_alphabet():
@@ -79,6 +81,11 @@ def _check_alphabet():
 
 class _Timeout(BaseException):
     pass
+
+
+# entries that ran into the guard twice in this process are not evaluated any more (a non-terminating parser
+# would otherwise cost the guard time on every text)
+_timeouts: dict = {}
 
 
 def _on_alarm(signum, frame):
@@ -124,9 +131,6 @@ def _use_accept(acc, offers):
     acc.best_match(offers, default="zz")
     acc.best
     list(acc.values())
-    acc.to_header()
-    str(acc)
-    repr(acc)
     for item in acc:
         if not (isinstance(item, tuple) and len(item) == 2 and isinstance(item[0], str)
                 and isinstance(item[1], (int, float))):
@@ -152,8 +156,6 @@ def _use_cache_control(cc):
         if name in ("max_age", "max_stale", "min_fresh", "s_maxage", "stale_while_revalidate", "stale_if_error"):
             if not (v is None or isinstance(v, int)):
                 raise AssertionError(f"cache_control.{name} -> {v!r}, documented int | None")
-    cc.to_header()
-    str(cc)
     return True
 
 
@@ -169,8 +171,6 @@ def _use_etags(e):
     bool(e)
     list(e)
     e.as_set(), e.as_set(include_weak=True)
-    e.to_header()
-    str(e)
     return True
 
 
@@ -182,12 +182,6 @@ def _use_range(r):
     for b in r.ranges:
         if not (isinstance(b, tuple) and len(b) == 2 and isinstance(b[0], int) and (b[1] is None or isinstance(b[1], int))):
             raise AssertionError(f"Range.ranges item {b!r} is not (int, int | None)")
-    for n in (None, 0, 1, 100):
-        r.range_for_length(n)
-        r.make_content_range(n)
-    r.to_header()
-    r.to_content_range_header(100)
-    str(r)
     return True
 
 
@@ -197,8 +191,6 @@ def _use_content_range(c):
     for v in (c.start, c.stop, c.length):
         if not (v is None or isinstance(v, int)):
             raise AssertionError(f"ContentRange field {v!r} is not int | None")
-    c.to_header()
-    str(c)
     return True
 
 
@@ -207,8 +199,6 @@ def _use_if_range(i):
         raise AssertionError(f"IfRange.etag {i.etag!r}")
     if not (i.date is None or isinstance(i.date, _dt.datetime)):
         raise AssertionError(f"IfRange.date {i.date!r}")
-    i.to_header()
-    str(i)
     return True
 
 
@@ -218,9 +208,8 @@ def _use_date(d):
     if d.tzinfo is None:
         raise AssertionError("parse_date returned a naive datetime")
     d.utcoffset()
-    d.timestamp()
-    wh.http_date(d)
     d - _dt.datetime(2000, 1, 1, tzinfo=_dt.timezone.utc)
+    d < _dt.datetime(2000, 1, 1, tzinfo=_dt.timezone.utc)
     return True
 
 
@@ -234,9 +223,6 @@ def _use_auth(a):
     if not isinstance(a.parameters, dict):
         raise AssertionError(f"Authorization.parameters {a.parameters!r}")
     a.username, a.password, a.realm, a.nonce, a.get("x")
-    a.to_header()
-    str(a)
-    repr(a)
     a == a
     return True
 
@@ -245,9 +231,6 @@ def _use_www_auth(a):
     if a is None:
         return True
     a.type, a.token, a.parameters, a.realm, a.get("x"), a.nonce, a.qop, a.stale, a.algorithm, a.opaque
-    a.to_header()
-    str(a)
-    repr(a)
     return True
 
 
@@ -271,7 +254,7 @@ def _use_multidict(m):
 
 
 def _use_headerset(h):
-    "a" in h, list(h), h.to_header(), str(h), len(h), h.find("a"), bool(h)
+    "a" in h, list(h), len(h), h.find("a"), bool(h)
     return True
 
 
@@ -280,7 +263,6 @@ def _use_csp(c):
         v = getattr(c, name)
         if not (v is None or isinstance(v, str)):
             raise AssertionError(f"csp.{name} -> {v!r}")
-    c.to_header()
     return True
 
 
@@ -318,8 +300,8 @@ PARSERS = dict([
        _inst(ds.ResponseCacheControl), _use_cache_control),
     _p("parse_csp_header", wh.parse_csp_header, _inst(ds.ContentSecurityPolicy), _use_csp),
     _p("parse_etags", wh.parse_etags, _inst(ds.ETags), _use_etags),
-    _p("unquote_etag", wh.unquote_etag, lambda v: isinstance(v, tuple) and len(v) == 2 and isinstance(v[0], str)
-       and isinstance(v[1], bool)),
+    _p("unquote_etag", wh.unquote_etag, lambda v: isinstance(v, tuple) and len(v) == 2 and (
+        (isinstance(v[0], str) and isinstance(v[1], bool)) or v == (None, None))),
     _p("parse_range_header", wh.parse_range_header, _opt(ds.Range), _use_range),
     _p("parse_range_header[make_inclusive=False]", lambda s: wh.parse_range_header(s, make_inclusive=False), _opt(ds.Range),
        _use_range),
@@ -386,6 +368,8 @@ def _check_parser(inp, guard=None):
     name, s = inp["name"], inp["s"]
     fn, typ, use = PARSERS[name]
     own = guard is None
+    if not own and _timeouts.get(name, 0) >= 2:
+        return [], False
     if own:
         guard = _Guard()
         guard.__enter__()
@@ -393,6 +377,8 @@ def _check_parser(inp, guard=None):
         try:
             nt, f = _run_entry(fn, typ, use, s)
         except _Timeout:
+            if not own:
+                _timeouts[name] = _timeouts.get(name, 0) + 1
             return [(f"{name}:timeout", f"no result within {GUARD_SECONDS:.0f} s", "terminates")], True
     finally:
         if own:
@@ -461,13 +447,13 @@ def _headers_all(req):
     for k, v in items:
         if not (isinstance(k, str) and isinstance(v, str)):
             raise AssertionError(f"header item {(k, v)!r} is not (str, str)")
-    dict(h), len(h), str(h), h.get("Host"), h.get("Content-Length", type=int), h.to_wsgi_list()
+    dict(h), len(h), h.get("Host"), h.get("Content-Length", type=int), h.getlist("Cookie"), "Host" in h
     return items
 
 
 def _ua(req):
     u = req.user_agent
-    u.string, u.platform, u.browser, u.version, u.language, str(u), bool(u)
+    u.string, u.platform, u.browser, u.version, u.language, bool(u)
     return u
 
 
@@ -582,6 +568,7 @@ class _TrackingEnviron(dict):
     def __init__(self, *a):
         super().__init__(*a)
         self.seen = set()
+        self.all = False
 
     def __getitem__(self, k):
         self.seen.add(k)
@@ -595,37 +582,63 @@ class _TrackingEnviron(dict):
         self.seen.add(k)
         return super().__contains__(k)
 
+    def _everything(self):
+        self.all = True
+
+    def items(self):
+        self._everything()
+        return super().items()
+
+    def keys(self):
+        self._everything()
+        return super().keys()
+
+    def values(self):
+        self._everything()
+        return super().values()
+
+    def __iter__(self):
+        self._everything()
+        return super().__iter__()
+
+
+# attributes that scan the whole header list to find their header: what they look for (read from the source)
+SCANNING = {"cookies": ["HTTP_COOKIE"]}
 
 _deps_cache: dict = {}
 
 
 def attr_deps():
     """environ variable -> attributes that read it (measured on the baseline request with a tracking
-    environ; attributes that enumerate all headers depend on every HTTP_* variable)"""
+    environ; attributes that enumerate the environ depend on every client-controlled variable unless listed
+    in SCANNING)"""
     if _deps_cache:
         return _deps_cache
     deps = {v: [] for v in CLIENT_VARS}
     for name, (getter, typ, use) in ATTRS.items():
         env = _TrackingEnviron(_environ({"HTTP_TRANSFER_ENCODING": "identity", "HTTP_UPGRADE": "h2c"}))
         try:
-            req = Request(env)
-            env.seen.clear()
-            v = getter(req)
-            if use is not None:
-                use(v)
-        except BaseException:  # noqa: BLE001
+            with _Guard(5.0):
+                req = Request(env)
+                env.seen.clear()
+                env.all = False
+                v = getter(req)
+                if use is not None:
+                    use(v)
+        except BaseException:  # noqa: BLE001 - incl. _Timeout: the enumeration reports it, here only reads matter
             pass
         seen = set(env.seen)
-        if name == "headers":
-            seen |= {k for k in CLIENT_VARS if k.startswith("HTTP_")} | {"CONTENT_TYPE", "CONTENT_LENGTH"}
-        for k in seen:
-            if k in deps:
+        if env.all:
+            seen |= set(SCANNING.get(name, CLIENT_VARS))
+        for k in CLIENT_VARS:
+            if k in seen:
                 deps[k].append(name)
-    # what Request.__init__ itself reads
-    for k in ("PATH_INFO", "QUERY_STRING"):
-        for n in ("path", "query_string", "full_path", "url", "base_url", "args", "values"):
-            if n not in deps[k] and not (k == "QUERY_STRING" and n in ("path", "base_url")) \
-                    and not (k == "PATH_INFO" and n in ("query_string", "args", "values")):
+    # what Request.__init__ itself reads and stores
+    init_reads = {"PATH_INFO": ("path", "full_path", "url", "base_url"),
+                  "QUERY_STRING": ("query_string", "full_path", "url", "args", "values")}
+    for k, names in init_reads.items():
+        for n in names:
+            if n not in deps[k]:
                 deps[k].append(n)
     _deps_cache.update(deps)
     return _deps_cache
@@ -651,6 +664,8 @@ def _run_attr(cls, overrides, attr):
 def _check_request(inp, guard=None):
     attr = inp["attr"]
     own = guard is None
+    if not own and _timeouts.get("Request." + attr, 0) >= 2:
+        return [], False
     if own:
         guard = _Guard()
         guard.__enter__()
@@ -658,6 +673,8 @@ def _check_request(inp, guard=None):
         try:
             nt, f = _run_attr(inp["cls"], inp["vars"], attr)
         except _Timeout:
+            if not own:
+                _timeouts["Request." + attr] = _timeouts.get("Request." + attr, 0) + 1
             return [(f"Request.{attr}:timeout", f"no result within {GUARD_SECONDS:.0f} s", "terminates")], True
     finally:
         if own:
@@ -684,84 +701,189 @@ def replay(payload):
 # enumeration
 # ----------------------------------------------------------------------------------------------
 
-def _keep(fails, chk, obs, per_check=4, per_signature=2):
+def _sig(inp, obs):
+    """failure signature: exception label (+ the variable, for one-variable request cases)"""
+    sig = str(obs).split(":")[0][:60]
+    if inp.get("kind") == "request" and len(inp["vars"]) == 1:
+        sig += "@" + next(iter(inp["vars"]))
+    return sig
+
+
+def _keep(fails, chk, inp, obs, per_check=8, per_signature=2):
+    """bound the failures carried around, preferring different exception types / variables per check"""
     same = [f for f in fails if f[0] == chk]
     if len(same) >= per_check:
         return False
-    sig = str(obs).split(":")[0][:60]
-    return sum(1 for f in same if str(f[2]).split(":")[0][:60] == sig) < per_signature
+    sig = _sig(inp, obs)
+    return sum(1 for f in same if _sig(f[1], f[2]) == sig) < per_signature
 
 
-def _texts_for_first(tokens, first, max_len):
-    """all token strings of 1..max_len tokens that start with token `first`"""
-    yield first
-    for n in range(1, max_len):
-        for combo in itertools.product(tokens, repeat=n):
-            yield first + "".join(combo)
+BODY_ATTRS = {"data", "files", "form", "values", "stream", "json", "get_data()", "get_data(as_text)",
+              "get_data(parse_form_data)", "get_json()", "get_json(force,silent)", "wsgi.get_input_stream",
+              "wsgi.get_input_stream[max_content_length]", "close()", "make_form_data_parser()"}
+BODY_ATTRS_CORE = {"QUERY_STRING": ("values",), "CONTENT_TYPE": ("form", "data"), "CONTENT_LENGTH": ("stream",)}
+
+_plan_cache: dict = {}
 
 
-def _eval_text(s, guard, fails, counters, deps, request_modes=True):
-    """every parser and every request attribute on one text"""
+def plan():
+    """how the Request attributes are driven for one text:
+
+    simple  - attributes that read exactly one client-controlled variable: all of them on one environ in
+              which each of those variables is the text (for such attributes this *is* the one-variable-at-a-
+              time environ)
+    multi   - variable -> attributes that read several variables (url family, body family): one variable at
+              a time on the well-formed baseline request
+    """
+    if _plan_cache:
+        return _plan_cache
+    deps = attr_deps()
+    inv: dict = {}
+    for v, attrs in deps.items():
+        for a in attrs:
+            inv.setdefault(a, []).append(v)
+    simple = sorted((a, vs[0]) for a, vs in inv.items() if len(vs) == 1)
+    multi = {v: [a for a in attrs if len(inv[a]) > 1 and a != "headers"] for v, attrs in deps.items()}
+    multi = {v: a for v, a in multi.items() if a}
+    _plan_cache.update({"simple": simple, "multi": multi, "none": sorted(a for a in ATTRS if a not in inv)})
+    return _plan_cache
+
+
+def _record(fails, counters, inp, fl, nt):
+    counters[0] += 1
+    counters[1] += 1 if nt else 0
+    for chk, obs, exp in fl:
+        if _keep(fails, chk, inp, obs):
+            fails.append((chk, inp, obs, exp))
+
+
+# attributes whose getter is nothing but one call of a parser that is also driven directly (PARSERS) on the
+# header text: at level 0 (the 3-token texts) they are left to the parser-level pass
+PURE_PARSER_ATTRS = {"accept_charsets", "accept_encodings", "accept_languages", "accept_mimetypes", "cache_control",
+                     "if_match", "if_none_match", "if_modified_since", "if_unmodified_since", "if_range", "range", "date",
+                     "authorization", "pragma", "access_control_request_headers"}
+
+
+def _attrs_shared(cls, overrides, attrs, guard, fails, counters, minimal=None):
+    """several attributes on one Request object (body-consuming ones get their own); a failure seen on the
+    shared object is re-evaluated on a fresh Request built from the attribute's own variables (`minimal`) and
+    only that result is recorded"""
+    req = None
+    for attr in attrs:
+        if _timeouts.get("Request." + attr, 0) >= 2:
+            continue
+        guard.rearm()
+        own = overrides if minimal is None else {minimal[attr]: overrides[minimal[attr]]}
+        inp = {"kind": "request", "cls": cls, "vars": own, "attr": attr}
+        if attr in BODY_ATTRS:
+            fl, nt = _check_request(inp, guard)
+            _record(fails, counters, inp, fl, nt)
+            continue
+        if req is None:
+            try:
+                req = REQUEST_CLASSES[cls](_environ(overrides))
+            except BaseException:  # noqa: BLE001 - reported by the fresh evaluation below
+                req = None
+        if req is None:
+            fl, nt = _check_request(inp, guard)
+            _record(fails, counters, inp, fl, nt)
+            continue
+        getter, typ, use = ATTRS[attr]
+        try:
+            nt, f = _run_entry(getter, typ, use, req)
+        except _Timeout:
+            nt, f = True, ("timeout", "", "")
+        if f is None:
+            _record(fails, counters, inp, [], nt)
+        else:
+            guard.rearm()
+            fl, nt = _check_request(inp, guard)
+            _record(fails, counters, inp, fl, nt)
+
+
+def _eval_text(s, guard, fails, counters, level=2, request_modes=True):
+    """every parser and the request attributes on one text.
+
+    level 0: parsers; single-variable attributes except the pure parser wrappers; url family and the core of the
+             body family one variable at a time
+    level 1: + the pure parser wrappers
+    level 2: + every body attribute / Transfer-Encoding one variable at a time, and every attribute on the
+             environ in which all client-controlled variables are the text"""
     for name in PARSERS:
         guard.rearm()
         inp = {"kind": "parser", "name": name, "s": s}
         fl, nt = _check_parser(inp, guard)
-        counters[0] += 1
-        counters[1] += 1 if nt else 0
-        for chk, obs, exp in fl:
-            if _keep(fails, chk, obs):
-                fails.append((chk, inp, obs, exp))
+        _record(fails, counters, inp, fl, nt)
     if not request_modes:
         return
-    # (1) one client-controlled variable at a time, the attributes that read it
-    for var, attrs in deps.items():
-        for attr in attrs:
-            classes = ("plain", "trusted") if (var == "HTTP_HOST" and attr in HOST_ATTRS) else ("plain",)
-            if attr in ("form", "files", "data", "values", "stream") and var in ("CONTENT_TYPE", "CONTENT_LENGTH"):
-                classes = ("plain", "limited")
-            for cls in classes:
-                guard.rearm()
-                inp = {"kind": "request", "cls": cls, "vars": {var: s}, "attr": attr}
-                fl, nt = _check_request(inp, guard)
-                counters[0] += 1
-                counters[1] += 1 if nt else 0
-                for chk, obs, exp in fl:
-                    if _keep(fails, chk, obs):
-                        fails.append((chk, inp, obs, exp))
-    # (2) all client-controlled variables set to the text at once, every attribute
+    pl = plan()
+    # (1a) single-variable attributes
+    simple = pl["simple"] if level >= 1 else [(a, v) for a, v in pl["simple"] if a not in PURE_PARSER_ATTRS]
+    simple_vars = {v: s for _, v in simple}
+    _attrs_shared("plain", simple_vars, [a for a, _ in simple], guard, fails, counters, minimal=dict(simple))
+    # (1b) attributes reading several variables: one variable at a time
+    for var, attrs in pl["multi"].items():
+        if level < 2:
+            if var == "HTTP_TRANSFER_ENCODING":
+                continue
+            attrs = [a for a in attrs if a not in BODY_ATTRS or a in BODY_ATTRS_CORE.get(var, ())]
+        _attrs_shared("plain", {var: s}, attrs, guard, fails, counters)
+        if var == "HTTP_HOST":
+            hattrs = [a for a, v in pl["simple"] if v == var and a in HOST_ATTRS] + [a for a in attrs if a in HOST_ATTRS]
+            _attrs_shared("trusted", {var: s}, hattrs, guard, fails, counters)
+        if var in ("CONTENT_TYPE", "CONTENT_LENGTH") and level >= 2:
+            _attrs_shared("limited", {var: s}, [a for a in attrs if a in ("form", "data", "stream")], guard, fails, counters)
+    if level < 2:
+        return
+    # (2) all client-controlled variables set to the text at once, every attribute, each on a fresh Request
     uniform = {v: s for v in CLIENT_VARS}
     for attr in ATTRS:
         guard.rearm()
         inp = {"kind": "request", "cls": "plain", "vars": uniform, "attr": attr}
         fl, nt = _check_request(inp, guard)
-        counters[0] += 1
-        counters[1] += 1 if nt else 0
-        for chk, obs, exp in fl:
-            if _keep(fails, chk, obs):
-                fails.append((chk, inp, obs, exp))
+        _record(fails, counters, inp, fl, nt)
 
 
 def _work_exhaustive(task):
-    tokens, first, max_len = task
-    deps = attr_deps()
+    tokens, first, max_len, full_len = task
     fails = []
     counters = [0, 0]
     sample = None
+    plan()
     with _Guard() as guard:
-        for s in _texts_for_first(tokens, first, max_len):
-            _eval_text(s, guard, fails, counters, deps)
-            if sample is None:
-                sample = s
+        for n in range(max_len):
+            for combo in itertools.product(tokens, repeat=n):
+                s = first + "".join(combo)
+                _eval_text(s, guard, fails, counters, level=(2 if n + 1 <= full_len else 0))
+                if sample is None:
+                    sample = s
     return counters[0], counters[1], fails, [("parser", {"kind": "parser", "name": "parse_options_header", "s": sample})]
 
 
-def _work_texts(texts):
-    deps = attr_deps()
+CORE = [",", ";", "=", '"', "\\", " ", "*", "%", "a", "0", "\xe9", "-", "'", "*="]
+CORE_T = CORE + [":", ".", "[", "q", "\xb2", "/"]
+
+
+def _work_core4(task):
+    """parser-level only: every 4-token (thorough: also 5-token) text over the core alphabet starting with `first`"""
+    tokens, first, lengths = task
     fails = []
     counters = [0, 0]
     with _Guard() as guard:
+        for n in lengths:
+            for combo in itertools.product(tokens, repeat=n - 1):
+                _eval_text(first + "".join(combo), guard, fails, counters, request_modes=False)
+    return counters[0], counters[1], fails, []
+
+
+def _work_texts(task):
+    texts, level = task
+    fails = []
+    counters = [0, 0]
+    plan()
+    with _Guard() as guard:
         for s in texts:
-            _eval_text(s, guard, fails, counters, deps)
+            _eval_text(s, guard, fails, counters, level=level)
     return counters[0], counters[1], fails, []
 
 
@@ -778,7 +900,7 @@ def _work_mixed(envs):
                 counters[0] += 1
                 counters[1] += 1 if nt else 0
                 for chk, obs, exp in fl:
-                    if _keep(fails, chk, obs):
+                    if _keep(fails, chk, inp, obs):
                         fails.append((chk, inp, obs, exp))
     return counters[0], counters[1], fails, []
 
@@ -811,6 +933,10 @@ SEEDS = [
     "text/plain; charset*=UTF-8''%E4; charset*0=a; charset*1*=%zz", "a; b*=''; c*='';d*0*=%; e*=x'y'%FF", "a; *=b; *0=c; **=d",
     "a; b=\"\\", "a; b=\"c\\\"", "; =", ";;;", "\xb2", "\xb9\xb2\xb3", "\xbd", "5\xb2", "-\xb2", "+1", " 1 ", "1_0", "0x1", "1e3",
     "\xb2, \xb3", "10.0.0.1,,\xff, ", ",", "\xad", "a\xadb", "\xdf", "\xa0", "identity", "chunked", "gzip, chunked",
+    'a="\\777"', 'a="\\477"', 'a="\\400"', 'a="\\378"', 'a="\\9"', 'a="\\', 'a="\\"', 'a="\\1"; b="\\12"; c="\\123"',
+    "Basic /w==", "Basic ////", "Basic dXNlcjpwYXNz====", "Basic  dXNlcg==  x", "Basic =", "basic", "BASIC\xa0dQ==",
+    "a*=x''b", "a*=x'y'%FF", "a*=undefined''%FF, b*=''", "a; b*=x''%FF", "a; b*0*=x''%FF; b*1=c", "a;a=", "a;a=\"", "a;*=a",
+    "a;q=1x", "a;q=0x1", "a;q=1-1", "a;q=0.5.5", "a;q=1e-1", "a;q=--1", "a;q=1 1", "a;q=1,b;q=0.5x", "a;q=a", "a;q=", "a;q=1;q=2", "a;q=0.0000", "a;q=-0", "a;q=1.", "a;q=.5", "a;q= 1 ", "a;q=\"1\"",
     "'", "''", "UTF-8''", "UTF-8'en'%E4%F6", "''%", "%", "%%", "%E4", "%u00e9", "%C3%28",
 ]
 
@@ -824,19 +950,20 @@ def run(tier, seed, reg=None):
     tokens = TOKENS[:N_QUICK] if quick else TOKENS
     max_len = 3
     missing = _missing_public()
-    deps = attr_deps()
-    n_single = sum(len(v) for v in deps.values())
+    pl = plan()
+    n_single = len(pl["simple"]) + sum(len(v) for v in pl["multi"].values())
     domain = (
         "texts = every concatenation of 1..{} tokens over a {}-token alphabet (separators , ; = \" \\ SP : / * % ' - . [ ], "
         "RFC 2231 markers, base64, Basic/Digest, dates, huge and negative digits, high-bit latin-1 bytes incl. valid and broken "
-        "UTF-8; no control characters) + {} hand-picked longer texts{}; each text through {} parser entries (the 15 named "
-        "parsers with all Accept / cache-control classes, both cookie parsers, Authorization / WWWAuthenticate.from_header, "
-        "results exercised: membership, best_match, typed accessors, to_header) and through wrappers.Request: (1) one "
+        "UTF-8; no control characters) + {} hand-picked longer texts, and (parser entries only) every 4-token text over a {}-token core alphabet{}{}; each text through {} parser entries (the 15 named "
+        "parsers with all Accept / cache-control classes, both cookie parsers, Authorization / WWWAuthenticate.from_header; "
+        "results exercised through read accessors only - membership, best_match, quality, typed cache-control / CSP / auth "
+        "accessors, ETags.contains - never through serialisers) and through wrappers.Request: (1) one "
         "client-controlled environ variable at a time ({} variables, the {} (variable, attribute) pairs that read it, measured "
         "with a tracking environ; Host also with trusted_hosts set; body attributes also with form limits) and (2) all "
         "client-controlled variables set to the text at once x all {} public attributes / zero-argument methods / wsgi "
         "helpers; per-input wall-clock guard of {:.0f} s"
-    ).format(max_len, len(tokens), len(SEEDS),
+    ).format(max_len, len(tokens), len(SEEDS), len(CORE if quick else CORE_T), "" if quick else " and every 5-token text over its first 12 tokens",
              "" if quick else "; seeded random: 60000 texts of 4-8 tokens through the same, 4000 environs in which every "
                               "variable gets its own random text of 0-4 tokens",
              len(PARSERS), len(CLIENT_VARS), n_single, len(ATTRS), GUARD_SECONDS)
@@ -849,9 +976,14 @@ def run(tier, seed, reg=None):
     tasks = []
     # exhaustive part, split by first token and (for balance) second token class
     for first in tokens:
-        tasks.append((_work_exhaustive, (tokens, first, max_len)))
+        tasks.append((_work_exhaustive, (tokens, first, max_len, 2)))
+    for first in (CORE if quick else CORE_T):
+        tasks.append((_work_core4, (CORE if quick else CORE_T, first, (4,))))
+    if not quick:
+        for first in CORE[:12]:
+            tasks.append((_work_core4, (CORE[:12], first, (5,))))
     for ch in _chunks(SEEDS, 4):
-        tasks.append((_work_texts, ch))
+        tasks.append((_work_texts, (ch, 2)))
     if not quick:
         r = rng(seed, "c07-texts")
         texts = []
@@ -859,7 +991,7 @@ def run(tier, seed, reg=None):
             k = r.randrange(4, 9)
             texts.append("".join(r.choice(TOKENS) for _ in range(k)))
         for ch in _chunks(texts, 64):
-            tasks.append((_work_texts, ch))
+            tasks.append((_work_texts, (ch, 1)))
         r = rng(seed, "c07-mixed")
         envs = []
         for _ in range(4000):
@@ -886,7 +1018,7 @@ def run(tier, seed, reg=None):
         evals += n
         nontrivial += nt
         for chk, inp, obs, exp in fails:
-            if _keep(kept, chk, obs, per_check=3, per_signature=2):
+            if _keep(kept, chk, inp, obs, per_check=8, per_signature=2):
                 kept.append((chk, inp, obs, exp))
                 col.fail(chk, inp, obs, exp)
         for chk, inp in samples:
